@@ -45,7 +45,8 @@ def build_corpus(tier, rng):
                 if mask % 3 == 1:
                     metas.append(EM("sall", G.STYLES[mask % len(G.STYLES)]))
                 if mask % 4 == 2:
-                    metas.append(EM("prefix", "ns::"))
+                    # VariantNames takes the prefix verbatim, braces included (only Display reads braces as placeholders)
+                    metas.append(EM("prefix", ["ns::", "{ns}", "}{", "a{{b"][(mask // 4) % 4]))
                 items.append(("mask", Item("E", vs, metas=metas)))
     for _ in range(300 if thorough else 40):
         n = rng.randint(6, 12)
